@@ -11,6 +11,7 @@ var zzC02Menu = []string{
 	"...F", "...G", "...Missing", "... on Query{a}", "... on Obj{x}", "... on Nope{a}", "... on String{a}", "... on Node{id}",
 	"n{... on Obj{x} ... on Other{z}}", "n{... on Query{a}}", "n{id x}", "u{id}", "u{__typename ... on Obj{id}}", "o{...OF}", "o{...F}",
 	"o{x} o{y}", "o{x:y} o{x}", "x:i(v:1) x:i(v:2)", "...X1", "n{... on Obj{t:x} ... on Other{t:z}}", "n{... on Obj{t:x} ... on Node{t:id}}", "ol{x} ol{y}", "o{o{x}} o{o{x:y}}",
+	"ol{... {x}}", "onn{... @skip(if:true){y}}", "ol{... on Obj{x}}",
 	"__typename", "__schema{types{name}}", "__type(name:\"Obj\"){name}", "__type(name:1){name}", "__type{name}",
 }
 
@@ -169,13 +170,17 @@ var zzC02FragCfgs = []string{
 	" fragment F on Query{i(v:$u)}",
 	" fragment F on Query @skip(if:true){a}",
 	" fragment F on Node{id}",
+	" fragment F on Query{...H} fragment G on Query{...H} fragment H on Query{i(v:$u)}",
+	" fragment F on Query{...G ...H} fragment G on Query{...H a} fragment H on Query{i(v:$u) ...G}",
 }
 
 // ZZ_C02_fragments: fragment topologies and definitions.
 func ZZ_C02_fragments() {
 	w := &zzWorld{}
 	schema := zzBuildSchema(w)
-	roots := []string{"{ ...F }", "{ x:a ...F }", "{ a }", "query Q($k:Int){ ...F i(v:$k) }", "{ o{x ...F} }", "{ ...F ...F }", "{ n{...F} }"}
+	roots := []string{"{ ...F }", "{ x:a ...F }", "{ a }", "query Q($k:Int){ ...F i(v:$k) }", "{ o{x ...F} }", "{ ...F ...F }", "{ n{...F} }",
+		"query A($u:Int){ ...F ...G } query B{ ...G }", "query A{ ...F ...G } query B($u:Int){ ...G }", "query A($u:Int){ ...F ...G } query B($u:String){ ...G }",
+		"query A($u:Int){ ...F } query B{ ...G } query C($u:Int){ ...H }"}
 	root := roots[zzChoice("root", len(roots))]
 	cfg := zzC02FragCfgs[zzChoice("frags", len(zzC02FragCfgs))]
 	zzCheckRules(&schema, root+cfg)
@@ -190,7 +195,7 @@ var zzC02VarCfgs = []string{
 func ZZ_C02_variables() {
 	w := &zzWorld{}
 	schema := zzBuildSchema(w)
-	uses := []string{"a", "i(v:$k)", "r(x:$k)", "li(l:$k)", "li(l:[$k])", "e(c:$k)", "io(in:$k)", "io(in:{b:\"x\",a:$k})", "a @skip(if:$k)", "...F", "i(v:$k) i(w:$k)", "i(v:$u)"}
+	uses := []string{"a", "i(v:$k)", "r(x:$k)", "li(l:$k)", "li(l:[$k])", "e(c:$k)", "io(in:$k)", "io(in:{b:\"x\",a:$k})", "a @skip(if:$k)", "...F", "i(v:$k) i(w:$k)", "i(v:$u)", "lnn(l:$k)", "lnn(l:[$k])", "lnn(l:[1,$k])"}
 	use := uses[zzChoice("use", len(uses))]
 	vd := zzC02VarCfgs[zzChoice("vars", len(zzC02VarCfgs))]
 	frag := ""
